@@ -86,6 +86,12 @@ impl Sim {
         self.st.lock().pending.iter().map(|p| p.id).collect()
     }
 
+    /// the write-log records of the pending writes
+    pub fn pending_recs(&self) -> Vec<WriteRec> {
+        let st = self.st.lock();
+        st.pending.iter().filter_map(|p| st.log.iter().find(|w| w.id == p.id).cloned()).collect()
+    }
+
     /// Let write `id` take effect and complete.
     pub fn release(&self, id: u64) -> bool {
         let mut st = self.st.lock();
